@@ -76,16 +76,13 @@ Theorem c09_readonly_invariant_refuted : exists a e, ~ ro_pres e (env_of (exec a
 Proof. exact readonly_invariant_refuted. Qed.
 Print Assumptions c09_readonly_invariant_refuted.
 
-Theorem c09_readonly_elem_refuted :
-  exists x ix v, v_ro x = true /\ snd (assign_at_index x ix v false) = None /\
-                 content (v_val (fst (assign_at_index x ix v false))) <> content (v_val x).
-Proof. exact assign_at_index_readonly_refuted. Qed.
-Print Assumptions c09_readonly_elem_refuted.
+Theorem c09_readonly_elem : forall x ix v app, v_ro x = true -> assign_at_index x ix v app = (x, Some EReadonly).
+Proof. exact assign_at_index_readonly. Qed.
+Print Assumptions c09_readonly_elem.
 
-Theorem c09_readonly_unset_elem_refuted :
-  exists x ix x', v_ro x = true /\ unset_index x ix = Ok (x', true) /\ content (v_val x') <> content (v_val x).
-Proof. exact unset_index_readonly_refuted. Qed.
-Print Assumptions c09_readonly_unset_elem_refuted.
+Theorem c09_readonly_unset_elem : forall x ix, v_ro x = true -> unset_index x ix = Err EReadonly.
+Proof. exact unset_index_readonly. Qed.
+Print Assumptions c09_readonly_unset_elem.
 
 Theorem c09_readonly_local_shadow_refuted :
   exists body, match exec (ACmd [] (CFunc body)) ro_scalar_env with
